@@ -6,6 +6,7 @@ pub mod gens;
 pub mod props;
 pub mod refwire;
 pub mod w_keys;
+pub mod w_ntske;
 pub mod w_server;
 pub mod w_source;
 pub mod w_srv;
